@@ -667,6 +667,11 @@ def run(ctx):
         'link relation of a recorded set = independent oracle (numpy longdouble, chord and atan2 formulas); pairs within '
         '1e-9 relative / 1e-12 deg of the linking length are borderline and may count either way (sets with more than %d '
         'borderline pairs are not judged)' % MAX_BORDER,
+        'merge orders: besides the (graph, cover) enumeration, MC_FoF enumerates the histories of chunk events directly (which '
+        'earlier provisional labels the k-th chunk touches, whether it brings a new point) and turns each into the (graph, cover) '
+        'that produces it, in both point orders: quick up to 6 events / 4 points with the event kinds new point, new point attached '
+        'to one label, merge of two labels; thorough also re-visits and merges that add a point.  Every such case is replayed '
+        'into the real friendsoffriends + renumbering',
         'MergeAlgo is model-checked for covers satisfying CoverOK (every point and every linked pair inside some chunk), '
         'which is what the chunk margins are meant to provide; whether the real chunk assignment provides it is exercised '
         'only through the recorded spheregroup runs',
